@@ -41,6 +41,13 @@ def gen_reopen(rng, cfg):
         if rng.random() < 0.3:
             c["store_depth"], c["store_width"] = str(c["store_depth"]), str(c["store_width"])
         expect = "reject"
+    elif r < 0.44:
+        # numeric strings that are NOT the stored integer (only an over-tolerant conversion calls them equal)
+        kind = "depth-width-non-integer-string"
+        k = rng.choice(["store_depth", "store_width"])
+        v = int(cfg[k])
+        c[k] = rng.choice(["%d.9" % v, "%d.5" % v, "%d.0" % v, "%de0" % v, "%d_0" % v, "0x%d" % v])
+        expect = "reject"
     elif r < 0.47:
         kind = "depth"
         c["store_depth"] = rng.choice([d for d in range(1, 6) if d != int(cfg["store_depth"])])
